@@ -1346,7 +1346,7 @@ CHECKS = {
     "C12": {"level": "model_checking", "run": run_C12, "assumptions": ASSUME_COMMON + ["hook H2 reports the JIT's counted / emitted / buffer sizes"],
             "rule": "every accepted program of the MC_Safety universe (all programs up to MaxLen slots over 32 templates: dead code, back edges, last-instruction kinds, wide loads, helper and local calls) compiled twice with the x86-64 JIT on the 4 VM kinds and with Cranelift, with helper sets {} and {1}; expected Ok/Err from Verifier!CompileOk; seeded random accepted programs (arbitrary opcodes / registers / displacements) validated by TLC (TraceCompile); size ladder 1..999,999 instructions incl. every size around the code buffer's first page boundary; families far, farcall, cfg, calls, flow (loops whose back edge spans every code distance from a few dozen to 190 bytes, conditional and unconditional) and pairs compiled and run crash-only; non-trivial = accepted programs Whatever the REAL verifier accepts is compiled (also programs the specification refuses: only panics count there)."},
     "C10": {"level": "model_checking", "run": run_C10, "assumptions": ASSUME_COMMON,
-            "rule": "VmApi.tla explored completely (all histories over the finite abstract state: 8 programs x 4 verifiers x compiled artefacts x helper x calculator x layout) for each VM kind with invariants RunsLatestLoaded, LoadedWasVerified, NoProgIsError, NotCompiledIsError and the action property FailedCallIsNoOp; binding: seeded random histories of 30 calls over {new, set_program(valid|invalid|valid-for-other-verifier, layout), set_verifier, register_helper, set_stack_usage_calculator, jit_compile, cranelift_compile, execute x3 engines x2 packets} on real VM objects of each kind, every call and result validated by TraceApi.tla; plus a transition cover: every transition of the abstract state graph (MC_VmApiTour, 250-772 states, 6-28 k transitions per kind) is taken at least once by call sequences planned by lib/tour.py, performed on real objects and validated the same way; 4 packets (two addresses, same address with another length, empty); non-trivial = histories"},
+            "rule": "VmApi.tla explored completely (all histories over the finite abstract state: 8 programs x 4 verifiers x compiled artefacts x helper x calculator x layout) for each VM kind with invariants RunsLatestLoaded, ResultIsFunctionOfInputs (interpreter and both compilers: the value is the one with the helpers registered now - re-registering under a taken id drops compiled code), LoadedWasVerified, NoProgIsError, NotCompiledIsError and the action property FailedCallIsNoOp; binding: seeded random histories of 30 calls over {new, set_program(valid|invalid|valid-for-other-verifier, layout), set_verifier, register_helper, set_stack_usage_calculator, jit_compile, cranelift_compile, execute x3 engines x2 packets} on real VM objects of each kind, every call and result validated by TraceApi.tla; plus a transition cover: every transition of the abstract state graph (MC_VmApiTour, 250-772 states, 6-28 k transitions per kind) is taken at least once by call sequences planned by lib/tour.py, performed on real objects and validated the same way; 4 packets (two addresses, same address with another length, empty); non-trivial = histories"},
     "C05": {"level": "model_checking", "run": run_C05, "assumptions": ASSUME_COMMON,
             "rule": "MC_Safety: every program of 1..MaxLen slots over 32 instruction templates on the verifier's rule boundaries, explored under the control-flow abstraction MachineCF (all inputs, helper sets and budgets: branches, accesses and helper calls go both ways), invariant: accepted => never stuck; soundness of the abstraction checked as a refinement (Machine => MachineCF) on the concrete case families; every program is replayed through the real verifier and, if accepted, run on the real interpreter under a budget; non-trivial = accepted programs; TLAPS: SafetyAbs.tla (a well-formed abstract program of any length never gets stuck) + MC_SafetyAbs (MachineCF refines it on the universe); verdict replays also over a VM that already holds a program (a refused load must leave it runnable)"},
     "C06": {"level": "model_checking", "run": run_C06, "assumptions": ASSUME_COMMON,
@@ -1354,7 +1354,7 @@ CHECKS = {
     "C07": {"level": "model_checking", "run": run_C07, "assumptions": ASSUME_COMMON,
             "rule": "Cases.tla family calls: chains of nested local calls of depth 0..9 in forward and backward layout x 7 frame-size calculators (none, constant 0/16/64/256/512, per-entry table), bounded recursion depth 1..10, far calls; every function checks its callee-saved registers, r10, its own stack slot and the pass-through of r0-r5; a call tree (two calls from one function, per-function frame sizes); Machine.tla (invariants DepthBound, FramePointerOK) gives the outcome incl. depth / stack errors; replayed on interpreter and x86-64 JIT; random call chains and /repo's own tests validated step by step (depth, r6-r10, return addresses)"},
     "C08": {"level": "model_checking", "run": run_C08, "assumptions": ASSUME_COMMON + ["instrumented helpers read rsp with inline asm and compare it with the value seen when the same function is called from Rust"],
-            "rule": "Cases.tla family helpers: ids {0,1,6,2^31-1,2^31,2^32-1} x 5 argument tuples from V64 x call depth 0..3 x 1-3 calls per program x registered sets {exact, superset, missing one}; Machine!ExecCallHelper logs the expected calls; instrumented helpers in the harness log the actual ones (id, arguments, stack alignment) on interpreter, JIT and Cranelift; call depth 7 and 8; a decoy registered (and compiled in) under every id before the real function; family flow; the suite's own helper calls validated step by step"},
+            "rule": "Cases.tla family helpers: ids {0,1,6,2^31-1,2^31,2^32-1} x 5 argument tuples from V64 x call depth 0..3 x 1-3 calls per program x registered sets {exact, superset, missing one}; Machine!ExecCallHelper logs the expected calls; instrumented helpers in the harness log the actual ones (id, arguments, stack alignment) on interpreter, JIT and Cranelift; call depth 7 and 8; a decoy registered (and compiled in) under every id before the real function; family flow; the suite's own helper calls validated step by step (memfrob's writes included: hr.wr from the recorder's memafter image); the harness helpers overwrite every caller-saved machine register and write memory when asked (cases hl: packet load after a helper; cases poke: bytes written by the helper read back through a register and with ldabs)"},
     "C09": {"level": "model_checking", "run": run_C09, "assumptions": ASSUME_COMMON,
             "rule": "Cases.tla family ctx: 12 probe programs x 4 VM kinds x 6 packet lengths (incl. 0) x 9 (data_offset, data_end_offset) pairs (either order, adjacent, 4096, 65536) x cold / warm (an earlier execution with another, larger packet elsewhere) / warm-same-address (an earlier execution with a packet at the same address and another length); Exec!InitFor gives the context; replayed on the three engines"},
     "C01": {"level": "model_checking", "run": run_C01, "assumptions": ASSUME_COMMON,
